@@ -444,6 +444,31 @@ func (m *rcl) condSets(cond ssa.Value, depth int) (v ssa.Value, t, f aset, ok bo
 	return
 }
 
+// evalCond: 1 if cond is certainly true in c, 2 if certainly false, 0 if both are possible
+// or nothing is known.
+func (m *rcl) evalCond(c *rclConf, cond ssa.Value) int8 {
+	if k, ok := cond.(*ssa.Const); ok && k.Value != nil && k.Value.Kind() == constant.Bool {
+		if constant.BoolVal(k.Value) {
+			return 1
+		}
+		return 2
+	}
+	if bv, ok := c.benv[cond]; ok && bv != 0 {
+		return bv
+	}
+	if v, t, f, ok := m.condSets(cond, 0); ok {
+		s := m.valSet(c, v)
+		canT, canF := !s.and(t).empty(), !s.and(f).empty()
+		switch {
+		case canT && !canF:
+			return 1
+		case canF && !canT:
+			return 2
+		}
+	}
+	return 0
+}
+
 // predicateTable: atoms on which a pure in-module rune predicate can return true / false.
 func (m *rcl) predicateTable(f *ssa.Function) [2]aset {
 	if t, ok := m.predTab[f]; ok {
@@ -565,9 +590,13 @@ func (m *rcl) analyse(fn *ssa.Function, flag int8, pend aset, params []aset, dep
 					ret = 2
 				}
 			case *ssa.Call:
-				ret = st.ret
+				if st.ret != 0 {
+					ret = st.ret
+				} else {
+					ret = m.evalCond(c, rv)
+				}
 			default:
-				ret = c.benv[rv]
+				ret = m.evalCond(c, rv)
 			}
 		}
 		emit := func(r int8) {
@@ -680,17 +709,7 @@ func (m *rcl) run(fn *ssa.Function, start *ssa.BasicBlock, startStates map[rclSt
 					if isRuneType(ph.Type()) {
 						ups = append(ups, upd{phi: ph, set: m.valSet(nc, inc), alias: nc.alias[inc]})
 					} else if types.Identical(ph.Type().Underlying(), types.Typ[types.Bool]) {
-						bv := int8(0)
-						if k, ok := inc.(*ssa.Const); ok && k.Value != nil {
-							if constant.BoolVal(k.Value) {
-								bv = 1
-							} else {
-								bv = 2
-							}
-						} else {
-							bv = nc.benv[inc]
-						}
-						ups = append(ups, upd{phi: ph, bval: bv, isB: true})
+						ups = append(ups, upd{phi: ph, bval: m.evalCond(nc, inc), isB: true})
 					}
 				}
 				for _, u := range ups {
